@@ -398,6 +398,8 @@ class Fn:
             if pl.is_local():
                 self.names[pl.local] = n['name']
         self.blocks = [Block(b, i) for i, b in enumerate(j['blocks'])]
+        # bodies generated by #[derive(..)]: the whole body span comes from the derive macro
+        self.derived = bool(j['span'].get('mac')) and self.kind in ('fn', 'method', 'closure')
         self._cache = {}
 
     def local_ty(self, l):
